@@ -72,17 +72,6 @@ def wantOfP (g : Global) (e : Pol) (t : PeerCfg) (l : List Cand) : Option Held :
   | none => none
   | some b => wantRP g e t b
 
-/-- what one (possibly absent) outgoing path does to what the peer holds for its prefix -/
-def heldApplyP (g : Global) (t : PeerCfg) (h : Option Held) : Option P → Option Held
-  | none => h
-  | some p => if p.wd then none else some (heldOf g t p.r)
-
-/-- what propagateUpdateToNeighbors sends to one peer for one destination change -/
-def deltaForP (g : Global) (e : Pol) (t : PeerCfg) (oldL newL : List Cand) : Option P :=
-  match getChanges oldL newL with
-  | (some b, old) => sFilterpathP g e t b old
-  | (none, _) => none
-
 theorem heldOf_pview (g : Global) (t : PeerCfg) (a b : Cand) (h : pview a = pview b) :
     heldOf g t a = heldOf g t b := by
   simp only [pview, Prod.mk.injEq] at h
@@ -549,22 +538,6 @@ theorem weak_inv_step (g : Global) (e : Pol) (t : PeerCfg) (hrs : t.isRSClient =
           exact weak_replace g e t b o rest newL hn hrs (wfO o (by simp)) hbi h inv
 
 /-! ### (3) one soft reset out / route refresh step -/
-
-/-- what softResetOut / handleRouteRefresh emit for one destination toward one peer: the export
-    of the best path, or — when the filters refuse it and sentPaths has the destination — its
-    withdrawal -/
-def softOutFor (g : Global) (e : Pol) (t : PeerCfg) (l : List Cand) (sent : Bool) : List P :=
-  match l.head? with
-  | none => []
-  | some b =>
-    if b.nhInvalid then []
-    else
-      match sFilterpathP g e t ⟨b, false⟩ none with
-      | some p => [p]
-      | none => if sent then [⟨b, true⟩] else []
-
-def heldApplyList (g : Global) (t : PeerCfg) (h : Option Held) (ps : List P) : Option Held :=
-  ps.foldl (fun h p => heldApplyP g t h (some p)) h
 
 /-- **soft_out_restores**: from ANY state that satisfies the weak invariant (sentPaths agreeing
     with what the peer holds), the soft reset out leaves the peer with exactly the export of the
